@@ -66,7 +66,7 @@ PLAN = {
         "pkg": ["vts", "vh"],
         "level": "model_checking",
         "parts": [part("mc_server", "c15", q=16, t=16, tq=200, tt=2400),
-                  part("mc_server", "conf", q=1, t=1, tq=200, tt=1200, tiers=("thorough",), args={"quick": ["--prop", "C15"], "thorough": ["--prop", "C15"]})],
+                  part("mc_server", "conf", q=1, t=1, tq=200, tt=1200, args={"quick": ["--prop", "C15"], "thorough": ["--prop", "C15"]})],
         "assumptions": ["virtual clock: an accept timeout advances time by exactly the requested timeout", "Listener::new binds a real socket path per execution so the unlink clause is observed on the real file system"],
     },
     "C07": {
